@@ -537,6 +537,9 @@ type ruPooled struct {
 	name, pool  string
 	deferredPut bool
 	result      string
+	gets        int // Get calls on a pool in the function
+	putsDefer   int // `defer pool.Put(inst)` statements directly in the block that holds the Get, after it
+	putsOther   int // every other Put call on a pool (explicit, in another block, inside a closure, another instance)
 }
 
 func ruHasBufResult(ft *ast.FuncType) bool {
@@ -871,6 +874,57 @@ func ruPooledFuncs(p *ruPkg, file string) ([]ruPooled, map[string][]string, erro
 			}
 			return true
 		})
+		// the protocol: ONE Get, ONE Put, the Put deferred right after the Get in the same block, so that it
+		// runs exactly once on every path out of the function (return, error return, panic)
+		getSeen := false
+		deferInHolder := map[*ast.CallExpr]bool{}
+		for _, st := range holder {
+			if as, ok := st.(*ast.AssignStmt); ok && len(as.Lhs) > 0 {
+				if id, ok := as.Lhs[0].(*ast.Ident); ok && id.Name == inst {
+					isGet := false
+					ast.Inspect(as, func(n ast.Node) bool {
+						if ce, ok := n.(*ast.CallExpr); ok {
+							if se, ok := ce.Fun.(*ast.SelectorExpr); ok && se.Sel.Name == "Get" {
+								isGet = true
+							}
+						}
+						return true
+					})
+					if isGet {
+						getSeen = true
+					}
+				}
+			}
+			if ds, ok := st.(*ast.DeferStmt); ok && getSeen {
+				if se, ok := ds.Call.Fun.(*ast.SelectorExpr); ok && se.Sel.Name == "Put" && len(ds.Call.Args) == 1 {
+					if id, ok := se.X.(*ast.Ident); ok && id.Name == pool {
+						if a, ok := ds.Call.Args[0].(*ast.Ident); ok && a.Name == inst {
+							deferInHolder[ds.Call] = true
+							pf.putsDefer++
+						}
+					}
+				}
+			}
+		}
+		ast.Inspect(fd.Body, func(n ast.Node) bool {
+			ce, ok := n.(*ast.CallExpr)
+			if !ok {
+				return true
+			}
+			if se, ok := ce.Fun.(*ast.SelectorExpr); ok {
+				if id, ok := se.X.(*ast.Ident); ok && pools[id.Name] != "" {
+					switch se.Sel.Name {
+					case "Get":
+						pf.gets++
+					case "Put":
+						if !deferInHolder[ce] {
+							pf.putsOther++
+						}
+					}
+				}
+			}
+			return true
+		})
 		if !ruHasBufResult(fd.Type) {
 			pf.result = "value"
 		} else {
@@ -1098,7 +1152,7 @@ func extractReuse(repo, out string) ([]string, error) {
 	b.WriteString("namespace OjgVerif.Gen.ReuseFacts\n\n")
 	b.WriteString("structure Site where\n  callee : String\n  assigned : List String\n  values : List (String × String)\n  deriving DecidableEq, Repr\n\n")
 	b.WriteString("structure Entry where\n  name : String\n  recv : String\n  sites : List Site\n  ever : List String\n  deriving DecidableEq, Repr\n\n")
-	b.WriteString("structure Pooled where\n  name : String\n  pool : String\n  deferredPut : Bool\n  result : String\n  deriving DecidableEq, Repr\n\n")
+	b.WriteString("structure Pooled where\n  name : String\n  pool : String\n  deferredPut : Bool\n  result : String\n  gets : Nat\n  putsDefer : Nat\n  putsOther : Nat\n  deriving DecidableEq, Repr\n\n")
 	b.WriteString("structure Cache where\n  pkg : String\n  touchers : List String\n  lockers : List String\n  unlockedRoots : List String\n" +
 		"  beforeLock : List String\n  beforeLockPlain : Bool\n  reassigned : List String\n  typeStructEmpty : String\n  deriving DecidableEq, Repr\n\n")
 
@@ -1182,8 +1236,8 @@ func extractReuse(repo, out string) ([]string, error) {
 		if i == len(pooled)-1 {
 			sep = ""
 		}
-		fmt.Fprintf(&b, "  { name := %s, pool := %s, deferredPut := %s, result := %s }%s\n",
-			ruLeanStr(pf.name), ruLeanStr(pf.pool), ruLeanBool(pf.deferredPut), ruLeanStr(pf.result), sep)
+		fmt.Fprintf(&b, "  { name := %s, pool := %s, deferredPut := %s, result := %s, gets := %d, putsDefer := %d, putsOther := %d }%s\n",
+			ruLeanStr(pf.name), ruLeanStr(pf.pool), ruLeanBool(pf.deferredPut), ruLeanStr(pf.result), pf.gets, pf.putsDefer, pf.putsOther, sep)
 	}
 	b.WriteString("]\n\n")
 	b.WriteString("/-- the composite literal of each pool's New function -/\n")
